@@ -597,7 +597,8 @@ static void exec_asm(Run &R, TaskRt &T, int ti, int oi, const Op &op) {
     // a library-managed buffer is compared with a fresh library-managed buffer as long as the start offset
     // lies within what a new instance can reach (its first growth quantum ahead); beyond that with a large
     // caller buffer (C08's equivalence)
-    const bool fresh_internal = !m.external && start <= 11900;
+    // (a new instance reaches its initial capacity plus one growth step, as observed on this tree)
+    const bool fresh_internal = !m.external && start <= lib_geometry().initial + lib_geometry().step - 120;
     long ncap = m.external ? m.cap : std::max<long>(65536, std::max<long>(off, start) + 8192);
     int eb = fresh_internal ? -1 : extbuf_new((size_t)ncap, op.guard ^ 1, (op.fill == 0) ? 0xFF : 0x00, op.uid ^ 0x5555);
     if (!fresh_internal && eb < 0) return;
